@@ -104,6 +104,12 @@ Notation "x <- m ;; k" := (bind m (fun x => k)) (at level 61, m at next level, r
 Notation "m ;; k" := (bind m (fun _ => k)) (at level 61, right associativity) : m_scope.
 Open Scope m_scope.
 
+Fixpoint forM {A} (l : list A) (f : A -> M unit) : M unit :=
+  match l with [] => ret tt | a :: r => f a ;; forM r f end.
+Fixpoint repeatM (n : nat) (m : M unit) : M unit :=
+  match n with O => ret tt | S k => m ;; repeatM k m end.
+Definition when_ (b : bool) (m : M unit) : M unit := if b then m else ret tt.
+
 (** transport helpers, named after interface.rs *)
 Definition cmd (c : N) : M unit := emit (ICmd c).
 Definition data (l : list N) : M unit := emit (IData (DLit l)).
@@ -114,13 +120,18 @@ Definition data_x_times (v n : N) : M unit := emit (IDataX v n).
 Definition wait_idle (busy_low : bool) : M unit := emit (IWait busy_low).
 Definition wait_idle_cmd (busy_low : bool) (c : N) : M unit := emit (IWaitCmd busy_low c).
 Definition reset (a b : N) : M unit := emit (IReset a b).
+Definition data_each (g : bytefn) (grp : N) (e : dexp) : M unit := emit (IDataEach g grp e).
 Definition delay_ms (n : N) : M unit := emit (IDelay Dms n).
 Definition delay_us (n : N) : M unit := emit (IDelay Dus n).
 
 (** checked u32 arithmetic (debug build: overflow panics) *)
 Definition u32max : N := 4294967296.
 Definition chk32 (x : N) : M N := if x <? u32max then ret x else panic.
+Definition add32 (a b : N) : M N := chk32 (a + b).
+Definition mul32 (a b : N) : M N := chk32 (a * b).
 Definition sub32 (a b : N) : M N := if b <=? a then ret (a - b) else panic.
+Definition bor (x m : N) : N := N.lor x m.
+Definition shl (x k : N) : N := N.shiftl x k.
 Definition u8 (x : N) : N := x mod 256.
 Definition shr (x k : N) : N := N.shiftr x k.
 Definition band (x m : N) : N := N.land x m.
